@@ -275,6 +275,11 @@ def correspondence(ctx):
                 tags.append('step')
     streams.append(run_two_pass(s, ops, objs, inps, tags, canons))
 
+    # --- the body of SplittingSimulation: chain of _run / get_next_error, estimator (harness/props/c18_splitting.py)
+    from harness.props import c18_splitting as SP
+    streams.append(SP.chain_stream(ctx, ctx.np_rng(1801)))
+    streams.append(SP.estimator_stream(ctx, ctx.np_rng(1802)))
+
     # --- wrong lengths (only those where numpy cannot broadcast)
     s = Stream('error_probability-malformed')
     code = make_code('Toric2DCode', (2, 1))
